@@ -19,20 +19,34 @@
 (*     special treatment.  An integrand with x in a denominator, a non-natural power, or under a     *)
 (*     function is not examinable: no logarithm or other transcendental value can arise.             *)
 (* A verdict is only ever drawn from points where BOTH sides have st = 0.                             *)
+(*                                                                                                   *)
+(* EVALUATION-MODE DISCIPLINE (performance only).  TLC evaluates the function part of  f[i]  in a mode *)
+(* that keeps function constructors lazy and caches nothing - also inside every operator called from  *)
+(* there.  Therefore: (1) results with several components are RECORDS (field selection is evaluated in  *)
+(* the normal mode); (2) a LET-bound or parameter sequence that is the result of a computation is first *)
+(* touched by Len(..) or = before it is indexed; (3) the Rat wrappers below touch their arguments by an  *)
+(* equality first; (4) constructed sequences are made concrete by  \o <<>>.                              *)
 EXTENDS Rat, Integers, Sequences, FiniteSets, TLC
 
 Z == <<0, 1>>
 One == <<1, 1>>
 MaxDeg == 9
 MaxN(a, b) == IF a >= b THEN a ELSE b
-\* integer fast paths (no gcd) in front of Rat's operations; same results
-QAdd(x, y) == IF x[2] = 1 /\ y[2] = 1 THEN (LET t == x[1] + y[1] IN IF RFits(t) THEN <<t, 1>> ELSE ROvf) ELSE RAdd(x, y)
-QSub(x, y) == IF x[2] = 1 /\ y[2] = 1 THEN (LET t == x[1] - y[1] IN IF RFits(t) THEN <<t, 1>> ELSE ROvf) ELSE RSub(x, y)
-QMul(x, y) == IF x[2] = 1 /\ y[2] = 1 THEN (IF MulFits(x[1], y[1]) THEN <<x[1] * y[1], 1>> ELSE ROvf) ELSE RMul(x, y)
+\* Rat operations: arguments touched in the normal mode; integer fast paths (no gcd); same results as lib/Rat
+QAdd(x, y) == IF x = ROvf \/ y = ROvf THEN ROvf
+              ELSE IF x[2] = 1 /\ y[2] = 1 THEN (LET t == x[1] + y[1] IN IF RFits(t) THEN <<t, 1>> ELSE ROvf) ELSE RAdd(x, y)
+QSub(x, y) == IF x = ROvf \/ y = ROvf THEN ROvf
+              ELSE IF x[2] = 1 /\ y[2] = 1 THEN (LET t == x[1] - y[1] IN IF RFits(t) THEN <<t, 1>> ELSE ROvf) ELSE RSub(x, y)
+QMul(x, y) == IF x = ROvf \/ y = ROvf THEN ROvf
+              ELSE IF x[2] = 1 /\ y[2] = 1 THEN (IF MulFits(x[1], y[1]) THEN <<x[1] * y[1], 1>> ELSE ROvf) ELSE RMul(x, y)
+QDiv(x, y) == IF x = ROvf \/ y = ROvf THEN ROvf ELSE RDiv(x, y)          \* callers exclude y = 0
+QNeg(x) == IF x = ROvf THEN ROvf ELSE <<-x[1], x[2]>>
+QPow(x, n) == IF x = ROvf THEN ROvf ELSE RPow(x, n)
 
 Cmps == {"=", "!=", "<", "<=", ">", ">="}
 Ariths == {"+", "-", "*", "/", "^"}
 
+(* The structural functions below take expression VALUES (sub-tuples of an event or of a state) as arguments. *)
 RECURSIVE FV(_)
 FVSeq(s) == UNION {FV(s[i]) : i \in 1..Len(s)}
 FV(e) == CASE e[1] = "var" -> {e[2]}
@@ -74,9 +88,9 @@ IVars(e) == CASE e[1] = "iint" -> {e[2]} \cup IVars(e[3])
               [] OTHER -> {}
 
 (* ------------------------------------------------------------------------------------------------ *)
-(* Occ(e, x): x occurs free in e.   DG(e, x) = <<Occ(e, x), d>>: d is a syntactic upper bound of the    *)
-(* degree of e as a polynomial in x (0 when x does not occur), or -1 when e is not syntactically a      *)
-(* polynomial in x.  One pass.                                                                        *)
+(* Occ(e, x): x occurs free in e.   DG(e, x) = [occ, deg]: deg is a syntactic upper bound of the        *)
+(* degree of e as a polynomial in x, or -1 when e is not syntactically a polynomial in x; a subterm     *)
+(* without x counts as a constant (Eff), whatever it is.  One pass.                                    *)
 RECURSIVE Occ(_, _)
 Occ(e, x) == CASE e[1] = "op" -> Occ(e[3], x) \/ Occ(e[4], x)
                [] e[1] = "var" -> e[2] = x
@@ -90,74 +104,73 @@ Occ(e, x) == CASE e[1] = "op" -> Occ(e[3], x) \/ Occ(e[4], x)
                [] e[1] = "diff" -> Occ(e[2], x)
                [] OTHER -> FALSE
 RECURSIVE DG(_, _)
-Eff(r) == IF r[1] THEN r[2] ELSE 0            \* a subterm without x counts as a constant, whatever it is
-NoX == <<FALSE, 0>>
+DGR(o, d) == [occ |-> o, deg |-> d]
+Eff(r) == IF r.occ THEN r.deg ELSE 0
+NoX == DGR(FALSE, 0)
 DG(e, x) ==
   CASE e[1] = "op" ->
          LET a == DG(e[3], x)  b == DG(e[4], x)  da == Eff(a)  db == Eff(b) IN
-         IF ~a[1] /\ ~b[1] THEN NoX
-         ELSE IF e[2] \in {"+", "-"} THEN <<TRUE, IF da < 0 \/ db < 0 THEN -1 ELSE MaxN(da, db)>>
-         ELSE IF e[2] = "*" THEN <<TRUE, IF da < 0 \/ db < 0 THEN -1 ELSE da + db>>
-         ELSE IF e[2] = "/" THEN <<TRUE, IF b[1] THEN -1 ELSE da>>
+         IF ~a.occ /\ ~b.occ THEN NoX
+         ELSE IF e[2] \in {"+", "-"} THEN DGR(TRUE, IF da < 0 \/ db < 0 THEN -1 ELSE MaxN(da, db))
+         ELSE IF e[2] = "*" THEN DGR(TRUE, IF da < 0 \/ db < 0 THEN -1 ELSE da + db)
+         ELSE IF e[2] = "/" THEN DGR(TRUE, IF b.occ THEN -1 ELSE da)
          ELSE IF e[2] = "^" THEN
-              <<TRUE, IF ~b[1] /\ e[4][1] = "const" /\ e[4][3] = 1 /\ e[4][2] >= 0 /\ e[4][2] <= MaxDeg /\ da >= 0 THEN da * e[4][2] ELSE -1>>
-         ELSE <<TRUE, -1>>
-    [] e[1] = "var" -> IF e[2] = x THEN <<TRUE, 1>> ELSE NoX
+              DGR(TRUE, IF ~b.occ /\ e[4][1] = "const" /\ e[4][3] = 1 /\ e[4][2] >= 0 /\ e[4][2] <= MaxDeg /\ da >= 0 THEN da * e[4][2] ELSE -1)
+         ELSE DGR(TRUE, -1)
+    [] e[1] = "var" -> IF e[2] = x THEN DGR(TRUE, 1) ELSE NoX
     [] e[1] = "const" -> NoX
     [] e[1] = "neg" -> DG(e[2], x)
     [] e[1] \in {"int", "evalat"} ->
          LET y == e[2]  l == DG(e[3], x)  h == DG(e[4], x)  bx == IF y = x THEN NoX ELSE DG(e[5], x)
              dl == Eff(l)  dh == Eff(h)  dbx == Eff(bx)  m == MaxN(dl, dh) IN
-         IF ~l[1] /\ ~h[1] /\ ~bx[1] THEN NoX
-         ELSE IF dl < 0 \/ dh < 0 \/ dbx < 0 THEN <<TRUE, -1>>
-         ELSE IF m = 0 THEN <<TRUE, dbx>>                       \* bounds without x
+         IF ~l.occ /\ ~h.occ /\ ~bx.occ THEN NoX
+         ELSE IF dl < 0 \/ dh < 0 \/ dbx < 0 THEN DGR(TRUE, -1)
+         ELSE IF m = 0 THEN DGR(TRUE, dbx)                       \* bounds without x
          ELSE LET dy == Eff(DG(e[5], y)) IN
-              <<TRUE, IF dy < 0 THEN -1 ELSE IF e[1] = "int" THEN dbx + (dy + 1) * m ELSE dbx + dy * m>>
+              DGR(TRUE, IF dy < 0 THEN -1 ELSE IF e[1] = "int" THEN dbx + (dy + 1) * m ELSE dbx + dy * m)
     [] e[1] = "sum" ->
          LET bx == IF e[2] = x THEN NoX ELSE DG(e[5], x) IN
-         IF Occ(e[3], x) \/ Occ(e[4], x) THEN <<TRUE, -1>> ELSE bx
-    [] e[1] = "deriv" -> LET b == DG(e[3], x) IN IF e[2] = x THEN <<TRUE, Eff(b)>> ELSE b
-    [] OTHER -> IF Occ(e, x) THEN <<TRUE, -1>> ELSE NoX
+         IF Occ(e[3], x) \/ Occ(e[4], x) THEN DGR(TRUE, -1) ELSE bx
+    [] e[1] = "deriv" -> LET b == DG(e[3], x) IN IF e[2] = x THEN DGR(TRUE, Eff(b)) ELSE b
+    [] OTHER -> IF Occ(e, x) THEN DGR(TRUE, -1) ELSE NoX
 Deg(e, x) == Eff(DG(e, x))
 
 (* ------------------------------------------------------------------------------------------------ *)
 (* Polynomials as coefficient sequences over Rat (lowest degree first) and Newton interpolation.     *)
 \* coefficients of binom(x, k)
-\* (TLC builds [i \in S |-> ...] lazily and re-evaluates the body at every application: `\o <<>>` / `@@ <<>>` make the value concrete)
 RECURSIVE BinP(_)
 BinP(k) == IF k = 0 THEN <<One>>
            ELSE LET p == BinP(k - 1) IN           \* times (x - (k-1)) / k
-                [i \in 1..(k + 1) |-> RDiv(RSub(IF i > 1 THEN p[i - 1] ELSE Z,
-                                                IF i <= k THEN RMul(RInt(k - 1), p[i]) ELSE Z), RInt(k))] \o <<>>
+                IF Len(p) = 0 THEN <<>>
+                ELSE [i \in 1..(k + 1) |-> QDiv(QSub(IF i > 1 THEN p[i - 1] ELSE Z,
+                                                     IF i <= k THEN QMul(RInt(k - 1), p[i]) ELSE Z), RInt(k))] \o <<>>
 BinTab == [k \in 0..MaxDeg |-> BinP(k)] @@ <<>>
-\* forward differences  d[k+1] = Delta^k f(0)  of the samples s[1..n+1] = f(0..n)
+\* forward differences  d[k+1] = Delta^k f(0)  of the samples s[1..n+1] = f(0..n)      (s: a concrete sequence)
 RECURSIVE DiffSeq(_)
 DiffSeq(s) == IF Len(s) <= 1 THEN s
               ELSE <<s[1]>> \o DiffSeq([i \in 1..(Len(s) - 1) |-> QSub(s[i + 1], s[i])] \o <<>>)
 RECURSIVE SumCoef(_, _, _, _)
 SumCoef(d, i, k, n) == IF k > n THEN Z ELSE QAdd(QMul(d[k + 1], BinTab[k][i]), SumCoef(d, i, k + 1, n))
 \* monomial coefficients c[1..n+1] (c[i] is the coefficient of x^(i-1)) of the interpolant of the samples
-Coeffs(s) == LET n == Len(s) - 1  d == DiffSeq(s) IN [i \in 1..(n + 1) |-> SumCoef(d, i, i - 1, n)] \o <<>>
+Coeffs(s) == LET n == Len(s) - 1  d == DiffSeq(s) IN
+             IF Len(d) = 0 THEN <<>> ELSE [i \in 1..(n + 1) |-> SumCoef(d, i, i - 1, n)] \o <<>>
 RECURSIVE HornerP(_, _, _)
 HornerP(c, t, i) == IF i > Len(c) THEN Z ELSE QAdd(c[i], QMul(t, HornerP(c, t, i + 1)))
 PolyAt(c, t) == HornerP(c, t, 1)
 \* value at t of the antiderivative (with value 0 at 0)
-AntiAt(c, t) == QMul(t, PolyAt([i \in 1..Len(c) |-> RDiv(c[i], RInt(i))] \o <<>>, t))
+AntiAt(c, t) == QMul(t, PolyAt([i \in 1..Len(c) |-> QDiv(c[i], RInt(i))] \o <<>>, t))
 
 Ext(env, x, v) == [y \in (DOMAIN env) \cup {x} |-> IF y = x THEN v ELSE env[y]] @@ <<>>
-IsIntQ(q) == ~RIsOvf(q) /\ q[2] = 1
+IsIntQ(q) == q # ROvf /\ q[2] = 1
 
 (* ------------------------------------------------------------------------------------------------ *)
-(* Results are RECORDS [st, v, d].  (TLC evaluates the function part of  f[i]  in a mode that keeps function        *)
-(* constructors lazy and uncached - also inside every operator called from there - so the result of a recursive       *)
-(* evaluation must never be taken apart by tuple indexing; record fields are selected in the normal mode.)          *)
 Res(st, v, d) == [st |-> st, v |-> v, d |-> d]
 Unk == Res(2, Z, Z)
 Und == Res(1, Z, Z)
 Bad(st) == Res(st, Z, Z)
-Mk(v, d) == IF RIsOvf(v) \/ RIsOvf(d) THEN Unk ELSE Res(0, v, d)
+Mk(v, d) == IF v = ROvf \/ d = ROvf THEN Unk ELSE Res(0, v, d)
 \* the derivative component is only computed when a differentiation variable is given (TLC evaluates operator arguments on demand)
-MkD(dx, v, d) == IF dx = "" THEN (IF RIsOvf(v) THEN Unk ELSE Res(0, v, Z)) ELSE Mk(v, d)
+MkD(dx, v, d) == IF dx = "" THEN (IF v = ROvf THEN Unk ELSE Res(0, v, Z)) ELSE Mk(v, d)
 
 RECURSIVE Ev(_, _, _)
 MaxSt(s) == IF \E i \in 1..Len(s) : s[i].st = 2 THEN 2 ELSE IF \E i \in 1..Len(s) : s[i].st = 1 THEN 1 ELSE 0
@@ -167,9 +180,9 @@ EvPow(a, b, e, dx) ==
   ELSE IF ~IsIntQ(b.v) \/ b.v[1] > 12 \/ b.v[1] < -12 THEN Unk
   ELSE LET n == b.v[1]  va == a.v IN
     IF n = 0 THEN (IF va[1] = 0 THEN Unk ELSE Res(0, One, Z))            \* 0 ^ 0 : not judged
-    ELSE IF n > 0 THEN MkD(dx, RPow(va, n), QMul(QMul(RInt(n), RPow(va, n - 1)), a.d))
+    ELSE IF n > 0 THEN MkD(dx, QPow(va, n), QMul(QMul(RInt(n), QPow(va, n - 1)), a.d))
     ELSE IF va[1] = 0 THEN Und
-    ELSE MkD(dx, RDiv(One, RPow(va, -n)), QMul(RDiv(RInt(n), RPow(va, 1 - n)), a.d))
+    ELSE MkD(dx, QDiv(One, QPow(va, -n)), QMul(QDiv(RInt(n), QPow(va, 1 - n)), a.d))
 
 EvOp(e, env, dx) ==
   IF e[2] \notin Ariths THEN Unk ELSE
@@ -179,7 +192,7 @@ EvOp(e, env, dx) ==
          [] e[2] = "-" -> MkD(dx, QSub(a.v, b.v), QSub(a.d, b.d))
          [] e[2] = "*" -> MkD(dx, QMul(a.v, b.v), QAdd(QMul(a.d, b.v), QMul(a.v, b.d)))
          [] e[2] = "/" -> IF b.v[1] = 0 THEN Und
-                          ELSE MkD(dx, RDiv(a.v, b.v), RDiv(QSub(QMul(a.d, b.v), QMul(a.v, b.d)), QMul(b.v, b.v)))
+                          ELSE MkD(dx, QDiv(a.v, b.v), QDiv(QSub(QMul(a.d, b.v), QMul(a.v, b.d)), QMul(b.v, b.v)))
          [] e[2] = "^" -> EvPow(a, b, e, dx)
 
 EvInt(e, env, dx0) ==
@@ -193,11 +206,12 @@ EvInt(e, env, dx0) ==
       st2 == MaxSt(smp) IN
   IF st2 # 0 THEN Bad(st2) ELSE
   LET c == Coeffs([i \in 1..(D + 1) |-> smp[i].v] \o <<>>)
-      val == QSub(AntiAt(c, hi.v), AntiAt(c, lo.v)) IN
+      val == IF Len(c) = 0 THEN Z ELSE QSub(AntiAt(c, hi.v), AntiAt(c, lo.v)) IN
   IF dx = "" THEN Mk(val, Z) ELSE
   LET cd == Coeffs([i \in 1..(D + 1) |-> smp[i].d] \o <<>>)        \* Leibniz rule
-      dv == QAdd(QSub(AntiAt(cd, hi.v), AntiAt(cd, lo.v)),
-                 QSub(QMul(PolyAt(c, hi.v), hi.d), QMul(PolyAt(c, lo.v), lo.d))) IN
+      dv == IF Len(cd) = 0 THEN Z
+            ELSE QAdd(QSub(AntiAt(cd, hi.v), AntiAt(cd, lo.v)),
+                      QSub(QMul(PolyAt(c, hi.v), hi.d), QMul(PolyAt(c, lo.v), lo.d))) IN
   Mk(val, dv)
 
 EvEvalAt(e, env, dx0) ==
@@ -239,13 +253,15 @@ EvIInt(e, env, dx) ==           \* the antiderivative that vanishes at 0, as a f
   IF D < 0 \/ D > MaxDeg THEN Unk ELSE
   LET smp == [i \in 1..(D + 1) |-> Ev(e[3], Ext(env, x, RInt(i - 1)), "")] \o <<>>
       st == MaxSt(smp) IN
-  IF st # 0 THEN Bad(st) ELSE Mk(AntiAt(Coeffs([i \in 1..(D + 1) |-> smp[i].v] \o <<>>), env[x]), Z)
+  IF st # 0 THEN Bad(st) ELSE
+  LET c == Coeffs([i \in 1..(D + 1) |-> smp[i].v] \o <<>>) IN
+  IF Len(c) = 0 THEN Res(0, Z, Z) ELSE Mk(AntiAt(c, env[x]), Z)
 
 Ev(e, env, dx) ==
   CASE e[1] = "op" -> EvOp(e, env, dx)
     [] e[1] = "const" -> IF e[3] > 0 THEN Res(0, IF e[3] = 1 THEN <<e[2], 1>> ELSE RNorm(e[2], e[3]), Z) ELSE Unk
     [] e[1] = "var" -> IF e[2] \in DOMAIN env THEN Res(0, env[e[2]], IF e[2] = dx THEN One ELSE Z) ELSE Unk
-    [] e[1] = "neg" -> LET a == Ev(e[2], env, dx) IN IF a.st # 0 THEN a ELSE Res(0, RNeg(a.v), IF dx = "" THEN Z ELSE RNeg(a.d))
+    [] e[1] = "neg" -> LET a == Ev(e[2], env, dx) IN IF a.st # 0 THEN a ELSE Res(0, QNeg(a.v), IF dx = "" THEN Z ELSE QNeg(a.d))
     [] e[1] = "int" -> EvInt(e, env, dx)
     [] e[1] = "evalat" -> EvEvalAt(e, env, dx)
     [] e[1] = "sum" -> EvSum(e, env, dx)
@@ -256,7 +272,7 @@ Ev(e, env, dx) ==
     [] e[1] = "fun" -> IF e[2] = "abs" /\ Len(e[3]) = 1
                        THEN LET a == Ev(e[3][1], env, dx) IN
                             IF a.st # 0 THEN a ELSE IF dx # "" /\ a.v[1] = 0 THEN Unk
-                            ELSE IF a.v[1] >= 0 THEN a ELSE Res(0, RNeg(a.v), RNeg(a.d))
+                            ELSE IF a.v[1] >= 0 THEN a ELSE Res(0, QNeg(a.v), QNeg(a.d))
                        ELSE Unk
     [] OTHER -> Unk
 
@@ -272,9 +288,10 @@ CondHolds(c, env) ==
   CASE c[2] = "=" -> k = 0 [] c[2] = "!=" -> k \in {-1, 1} [] c[2] = "<" -> k = -1
     [] c[2] = "<=" -> k \in {-1, 0} [] c[2] = ">" -> k = 1 [] c[2] = ">=" -> k \in {0, 1}
 
-Grid(n) == CASE n <= 1 -> {<<-1, 1>>, <<0, 1>>, <<1, 2>>, <<2, 1>>}
-             [] n = 2 -> {<<-1, 1>>, <<1, 2>>, <<2, 1>>}
-             [] n \in {3, 4} -> {<<-1, 1>>, <<2, 1>>}
+Grid(n) == CASE n <= 1 -> {<<-2, 1>>, <<-1, 1>>, <<0, 1>>, <<1, 2>>, <<1, 1>>, <<2, 1>>, <<3, 1>>}
+             [] n = 2 -> {<<-1, 1>>, <<0, 1>>, <<1, 2>>, <<2, 1>>, <<3, 1>>}
+             [] n = 3 -> {<<-1, 1>>, <<1, 2>>, <<2, 1>>}
+             [] n = 4 -> {<<-1, 1>>, <<2, 1>>}
              [] OTHER -> {<<2, 1>>, <<3, 1>>}
 MaxVars == 5
 
@@ -294,12 +311,12 @@ SameValue(e, r, conds) ==
       \* [both defined, difference] at one point
       Diff(env) == LET a == Val(e, env)  b == Val(r, env) IN
                    IF a.st # 0 \/ b.st # 0 THEN [ok |-> FALSE, d |-> Z]
-                   ELSE LET d == QSub(a.v, b.v) IN IF RIsOvf(d) THEN [ok |-> FALSE, d |-> Z] ELSE [ok |-> TRUE, d |-> d] IN
+                   ELSE LET d == QSub(a.v, b.v) IN IF d = ROvf THEN [ok |-> FALSE, d |-> Z] ELSE [ok |-> TRUE, d |-> d] IN
   IF ~upto THEN LET codes == {Diff(env) : env \in adm} IN              \* every point is evaluated once
                 [fails |-> \E c \in codes : c.ok /\ c.d # Z, cmp |-> \E c \in codes : c.ok]
   ELSE LET x == CHOOSE y \in iv : TRUE IN
        IF x \notin vs \/ \E i \in 1..Len(conds) : x \in FV(conds[i]) THEN No
-       ELSE LET res == {[o |-> [y \in vs \ {x} |-> env[y]], x |-> env[x], r |-> Diff(env)] : env \in adm}
+       ELSE LET res == {[o |-> [y \in vs \ {x} |-> env[y]] @@ <<>>, x |-> env[x], r |-> Diff(env)] : env \in adm}
                 cmp == {t \in res : t.r.ok} IN
             [fails |-> \E p \in cmp : \E q \in cmp : p.o = q.o /\ p.r.d # q.r.d,
              cmp |-> \E p \in cmp : \E q \in cmp : p.o = q.o /\ p.x # q.x]
@@ -309,21 +326,23 @@ SameValue(e, r, conds) ==
 (* -3 and  3/4  as the constant 3/4, so  neg(const) , const / const  and  neg(oo)  are identified with  *)
 (* the constants they denote; a limit at an infinity has no direction.  Nothing else is identified.   *)
 RECURSIVE Canon(_)
-CanonSeq(s) == [i \in 1..Len(s) |-> Canon(s[i])]
+CanonSeq(s) == [i \in 1..Len(s) |-> Canon(s[i])] \o <<>>
 Canon(e) ==
   CASE e[1] = "neg" -> LET a == Canon(e[2]) IN
-                       IF a[1] = "const" THEN <<"const", -a[2], a[3]>> ELSE IF a[1] = "inf" THEN <<"inf", -a[2]>> ELSE <<"neg", a>>
+                       IF Len(a) = 0 THEN a
+                       ELSE IF a[1] = "const" THEN <<"const", -a[2], a[3]>> ELSE IF a[1] = "inf" THEN <<"inf", -a[2]>> ELSE <<"neg", a>>
     [] e[1] = "op" -> LET a == Canon(e[3])  b == Canon(e[4]) IN
-                      IF e[2] = "/" /\ a[1] = "const" /\ b[1] = "const" /\ b[2] # 0 /\ a[3] > 0 /\ b[3] > 0
+                      IF Len(a) = 0 \/ Len(b) = 0 THEN e
+                      ELSE IF e[2] = "/" /\ a[1] = "const" /\ b[1] = "const" /\ b[2] # 0 /\ a[3] > 0 /\ b[3] > 0
                       THEN LET q == RDiv(RNorm(a[2], a[3]), RNorm(b[2], b[3])) IN
-                           IF RIsOvf(q) THEN <<"bigconst", "", "">> ELSE <<"const", q[1], q[2]>>
+                           IF q = ROvf THEN <<"bigconst", "", "">> ELSE <<"const", q[1], q[2]>>
                       ELSE <<"op", e[2], a, b>>
-    [] e[1] = "const" -> IF e[3] > 0 THEN LET q == RNorm(e[2], e[3]) IN <<"const", q[1], q[2]>> ELSE e
+    [] e[1] = "const" -> IF e[3] > 0 THEN LET q == RNorm(e[2], e[3]) IN IF q = ROvf THEN e ELSE <<"const", q[1], q[2]>> ELSE e
     [] e[1] = "fun" -> <<"fun", e[2], CanonSeq(e[3])>>
     [] e[1] \in {"int", "evalat", "sum"} -> <<e[1], e[2], Canon(e[3]), Canon(e[4]), Canon(e[5])>>
     [] e[1] = "iint" -> <<"iint", e[2], Canon(e[3]), e[4]>>
     [] e[1] = "deriv" -> <<"deriv", e[2], Canon(e[3])>>
-    [] e[1] = "lim" -> LET l == Canon(e[3]) IN <<"lim", e[2], l, Canon(e[4]), IF l[1] = "inf" THEN "" ELSE e[5]>>
+    [] e[1] = "lim" -> LET lm == Canon(e[3]) IN IF Len(lm) = 0 THEN e ELSE <<"lim", e[2], lm, Canon(e[4]), IF lm[1] = "inf" THEN "" ELSE e[5]>>
     [] e[1] = "skolem" -> <<"skolem", e[2], CanonSeq(e[3])>>
     [] e[1] = "diff" -> <<"diff", Canon(e[2])>>
     [] OTHER -> e
@@ -345,4 +364,11 @@ Printable(e, top) ==
     [] e[1] = "skolem" -> \A i \in 1..Len(e[3]) : Printable(e[3][i], FALSE)
     [] e[1] = "diff" -> Printable(e[2], FALSE)
     [] OTHER -> TRUE
+
+\* print / parse comparison of an expression value e with its re-parsed value rp (both concrete)
+SameUpToNumerals(e, rp) ==
+  LET a == Canon(e)  b == Canon(rp) IN
+  IF Len(a) = 0 \/ Len(b) = 0 THEN [judged |-> FALSE, same |-> TRUE]
+  ELSE IF HasKind(a, "bigconst") \/ HasKind(b, "bigconst") \/ HasKind(b, "oth") THEN [judged |-> FALSE, same |-> TRUE]
+  ELSE [judged |-> TRUE, same |-> a = b]
 =============================================================================
